@@ -140,6 +140,32 @@ LIMIT_SITES = [
     ("try_for_each_concurrent_control_mut_with", "FnGraph", "try_for_each_concurrent_mut_internal", "limit"),
 ]
 
+def _opts_sites():
+    A, AI = ["async"], ["async", "interruptible"]
+    out = []
+    for base in ("fold_async", "fold_async_mut", "try_fold_async", "try_fold_async_mut"):
+        out.append((base, base + "_internal", 1, "StreamOpts::default()", None, 0, A, ("C02", "C08")))
+        out.append((base + "_with", base + "_internal", 1, "opts", "opts", 0, A, ("C02", "C08")))
+    for base in ("for_each_concurrent", "for_each_concurrent_mut", "try_for_each_concurrent", "try_for_each_concurrent_mut"):
+        out.append((base, base + "_internal", 1, "StreamOpts::default()", None, 0, A, ("C02", "C08")))
+        out.append((base + "_with", base + "_internal", 1, "opts", "opts", 0, A, ("C02", "C08")))
+    for (w, internal) in (("try_for_each_concurrent_control", "try_for_each_concurrent_internal"), ("try_for_each_concurrent_control_mut", "try_for_each_concurrent_mut_internal")):
+        out.append((w, internal, 1, "StreamOpts::default()", None, 0, A, ("C02", "C08")))
+        out.append((w + "_with", internal, 1, "opts", "opts", 0, A, ("C02", "C08")))
+    out.append(("stream", "stream_internal", 0, "StreamOrder::Forward", None, 0, A, ("C02",)))
+    out.append(("stream_with", "stream_internal", 0, "stream_order", "stream_order", 1, A, ("C02",)))
+    out.append(("stream_with_interruptible", "stream_internal", 0, "stream_order", "stream_order", 1, AI, ("C02", "C08")))
+    out.append(("stream_with_interruptible", "interruptible_with", 0, "interruptibility_state", "interruptibility_state", 1, AI, ("C08",)))
+    out.append(("stream_interruptible", "stream_with_interruptible", 0, "StreamOpts::default()", None, 0, AI, ("C08",)))
+    for f in ("fold_async_internal", "fold_async_mut_internal", "try_fold_async_internal", "try_fold_async_mut_internal",
+              "for_each_concurrent_internal", "for_each_concurrent_mut_internal", "try_for_each_concurrent_internal", "try_for_each_concurrent_mut_internal"):
+        out.append((f, "poll_and_track_fn_ready", 2, "interruptibility_state", "interruptibility_state", 1, AI, ("C08",)))
+        out.append((f, "poll_and_track_fn_ready", 3, "interrupted_next_item_include", "interrupted_next_item_include", 1, AI, ("C08",)))
+    return out
+
+
+OPTS_SITES = _opts_sites()
+
 INTERIOR_MUT = re.compile(r'\b(Cell|RefCell|UnsafeCell|Mutex|RwLock|Atomic\w*|OnceCell|OnceLock|LazyCell|LazyLock)\b')
 
 
@@ -173,6 +199,28 @@ def run_syntactic(prop, repo, outdir):
                 st = "undischarged"
                 res["undecided"].append(f"syntactic:{fn}:{u.reason[:120]}")
             res["obligations"].append({"id": oid, "kind": "syntactic", "status": st, "weight": 1, "unit": "SYN", "features": "async", "backend": "syntactic"})
+    if prop in ("C02", "C08"):
+        for (fn, callee, argi, want, binder, nbind, feats, props) in OPTS_SITES:
+            if prop not in props:
+                continue
+            oid = f"SYN/{fn}/{prop}.argument-{argi}-of-{callee}-is-{want.replace(' ', '').replace('::', '-').replace('()', '')}"
+            try:
+                ex = run_extract(repo, feats, [{"name": "x", "file": "src/fn_graph.rs", "kind": "call_arg", "ident": fn, "impl_self": "FnGraph", "call": callee, "nth": 0, "arg": argi}], outdir)
+                got = ex["x"]["text"]
+                st = "discharged" if got.replace(" ", "") == want.replace(" ", "") else "FAILED"
+                if st == "FAILED":
+                    res["violations"].append({"oid": oid, "kind": "syntactic", "named": True, "message": f"argument {argi} of {callee} in {fn} is `{got}`, expected `{want}`",
+                                              "rendered": f"{fn}: {callee}(.., {got}, ..) - the caller's stream options are not what reaches the run", "where": {"k": "syntactic", "fn": fn, "file": "src/fn_graph.rs", "span": ex["x"]["span"]}})
+                elif binder:
+                    bx = run_extract(repo, feats, [{"name": "b", "file": "src/fn_graph.rs", "kind": "binders", "ident": fn, "impl_self": "FnGraph", "binder": binder}], outdir)
+                    b = json.loads(bx["b"]["text"])
+                    if b["param_mut"] or b["rebinds"] != nbind or b["assigns"]:
+                        st = "undischarged"
+                        res["undecided"].append(f"syntactic:{fn}:`{binder}` is bound {b['rebinds']} times (expected {nbind}) or assigned before it reaches {callee}: forwarding cannot be decided syntactically")
+            except Undecided as u:
+                st = "undischarged"
+                res["undecided"].append(f"syntactic:{fn}:{u.reason[:120]}")
+            res["obligations"].append({"id": oid, "kind": "syntactic", "status": st, "weight": 1, "unit": "SYN", "features": "+".join(feats), "backend": "syntactic"})
     if prop == "C09":
         # the four for_each variants read the shared counter through an RwLock: that the outcome state is computed from
         # THAT read (made after the stream ended: it is part of the extracted epilogue, unit U18) is a syntactic condition
@@ -255,7 +303,7 @@ def run_syntactic(prop, repo, outdir):
 
 def run(prop, tier, repo, outdir, seed):
     out = []
-    if prop in ("C09", "C10", "C15", "C20"):
+    if prop in ("C02", "C08", "C09", "C10", "C15", "C20"):
         out.append(run_syntactic(prop, repo, outdir))
     if prop in ("C19", "C20"):
         r = run_typecheck(prop, tier, repo, outdir, seed)
